@@ -517,6 +517,32 @@ def explore(ctx, focus, kinds, versions, stricts, size):
                     jobs.append((pre_ops, op, len(pre_ops)))
                 if pre_ops:
                     jobs.append((pre_ops[:-1], pre_ops[-1], 0))
+        # deeper histories: simulated walks of a larger instance of the same model (more objects, children, names)
+        wk = size.get("walks")
+        if wk:
+            cfg = os.path.join(tlc.SPEC_DIR, "_gen_ETSIM_%s_%d.cfg" % (ctx.pid, os.getpid()))
+            with open(cfg, "w") as f:
+                f.write(mc_cfg(wk["names"], wk["objs"], [V1, V2], wk["kids"], wk["held"], strict, props=False).replace("VIEW View\n", ""))
+            try:
+                rs, behaviours = tlc.simulate("ElementTreeMC", os.path.basename(cfg), num=wk["num"], depth=wk["depth"],
+                                              seed=ctx.seed * 2 + (1 if strict else 0) + 1, timeout=900)
+            finally:
+                os.unlink(cfg)
+            nw = 0
+            for b in behaviours:
+                seq = []
+                for act, stt in b:
+                    op = stt["last"][0]
+                    if op.get("op") and op["op"] != "Init":
+                        op = dict(op)
+                        if "v" in op:
+                            op["v"] = "".join(chr(x) for x in op["v"])
+                        seq.append(op)
+                if len(seq) >= 2:
+                    jobs.append((seq[:-1], seq[-1], 0))
+                    nw += 1
+            ctx.extra.setdefault("simulated_walks", 0)
+            ctx.extra["simulated_walks"] += nw
         rnd.shuffle(jobs)
         for kind in kinds:
             for version in versions:
